@@ -5,7 +5,9 @@ C08 ties: the converter registries regenerated from `object/typeconv.go` on this
 tables frozen here, and the frozen tables are what the model's `sel`, `fromLeaf` (the unnamed-type
 assertion) and `scalarTo` / `toLeaf` (accepted object types) implement.  The sites of the seven
 repairs (range checks in `From` / `To`, the length check of `ArrayConverter.To`, the nil case of
-`AsObjects`, the surplus check of `Proxy.call`, `vm.Run`'s `createVM`, the `namedConverter` of declared types) are regenerated and tied too.
+`AsObjects`, the surplus check of `Proxy.call`, `vm.Run`'s `createVM`, the `namedConverter` of declared types) are regenerated and tied too,
+and so is what a converter can keep between two conversions (the types of the fields of every
+converter struct; where `StructConverter.To` takes the struct it fills for a map object from).
 -/
 namespace Risor.C08
 open Risor.Generated.C08
@@ -215,5 +217,34 @@ theorem declared_type_matches :
     error -/
 theorem run_creates_tie : runCreatesWith = "createVM" := by decide
 theorem run_creates_matches : evalGlobal F1 (some (.chan, .nilv)) = .error := by decide
+
+/-! ### converters keep nothing between conversions
+
+`typeConverters` / `GoType.converter` hold ONE converter per Go type for the whole process, so what
+a converter may carry from one conversion to the next is what its fields can hold.  Every field of
+every converter type is of a type that is fixed when the converter is built (another converter, a
+reflect.Type, a *GoType, a bool, an int) — no pool, map, slice, buffer or pointer to scratch
+memory; and `StructConverter.To` takes the struct it fills for a map object from `goType.New()`.
+In the model `toGo` is a function of (type, object) alone and a series of conversions is the
+series of the single ones (`toSlotSeq`, `C08_seq_independent`). -/
+
+def immutableFieldTypes : List String := ["TypeConverter", "reflect.Type", "*GoType", "bool", "int"]
+
+theorem converter_state_tie :
+    (∀ p ∈ converterFieldTypes, ∀ t ∈ p.2, t ∈ immutableFieldTypes) ∧
+    (converterFieldTypes.lookup "StructConverter").isSome ∧
+    (converterFieldTypes.lookup "SliceConverter").isSome := by decide
+
+theorem struct_map_alloc_tie : structMapAlloc = "value := c.goType.New()" := by decide
+
+/-- a map object for a struct: a new struct with the named fields set and the others zero — twice
+    in a row the same, and a map that names nothing gives the zero struct -/
+theorem struct_map_alloc_matches :
+    toBase F1 .get (.struct (.cons .bool (.cons .str .nil))) (.map [] .nil)
+      = .ok (some (.struct (.cons .bool (.cons .str .nil)), .struct (.cons (.bool false) (.cons (.str []) .nil)))) ∧
+    toSlotSeq F1 .get (.struct (.cons .bool (.cons .str .nil)))
+      [.map [[70, 48]] (.cons (.bool true) .nil), .map [[70, 49]] (.cons (.str [120]) .nil)]
+      = [.ok (.struct (.cons (.bool true) (.cons (.str []) .nil))),
+         .ok (.struct (.cons (.bool false) (.cons (.str [120]) .nil)))] := by decide
 
 end Risor.C08
